@@ -460,6 +460,17 @@ fn drive(
 
 /// Executes one build `spec.repeat` times; returns one result per repetition.
 pub fn run_build(scratch: &mut Scratch, world: &World, spec: &BuildSpec) -> Vec<RunResult> {
+    run_build_with(scratch, world, spec, true)
+}
+
+/// As `run_build`; with `scheduled == false` no scheduler is installed, so every seam passes
+/// the real hash order through (used only by the seam audit).
+pub fn run_build_with(
+    scratch: &mut Scratch,
+    world: &World,
+    spec: &BuildSpec,
+    scheduled: bool,
+) -> Vec<RunResult> {
     let mut results = Vec::new();
     for _rep in 0..spec.repeat.max(1) {
         let dir = scratch.fresh();
@@ -476,7 +487,11 @@ pub fn run_build(scratch: &mut Scratch, world: &World, spec: &BuildSpec) -> Vec<
         let before = snapshot(&out_path);
 
         let (scheduler, trace) = SimScheduler::new(spec.sched.clone());
-        pyxis::verif::install(Box::new(scheduler));
+        if scheduled {
+            pyxis::verif::install(Box::new(scheduler));
+        } else {
+            pyxis::verif::uninstall();
+        }
         LAST_PANIC.with(|p| *p.borrow_mut() = None);
         crate::alloc::reset_peak();
         let r = std::panic::catch_unwind(std::panic::AssertUnwindSafe(|| {
@@ -485,9 +500,12 @@ pub fn run_build(scratch: &mut Scratch, world: &World, spec: &BuildSpec) -> Vec<
         let peak_alloc = crate::alloc::peak();
         pyxis::verif::uninstall();
 
+        // Scratch paths carry the process id and a counter; they are replaced so that the
+        // recorded outcome (and with it the event log) is the same in every process.
+        let scrub = |s: String| s.replace(&dir.to_string_lossy().into_owned(), "<scratch>");
         let (outcome, resolved) = match r {
             Ok(Ok(resolved)) => (Outcome::Ok, resolved),
-            Ok(Err(e)) => (Outcome::Err(format!("{e:#}")), None),
+            Ok(Err(e)) => (Outcome::Err(scrub(format!("{e:#}"))), None),
             Err(_) => {
                 let (message, location) = LAST_PANIC
                     .with(|p| p.borrow_mut().take())
@@ -495,7 +513,13 @@ pub fn run_build(scratch: &mut Scratch, world: &World, spec: &BuildSpec) -> Vec<
                 if message.contains(STEP_BUDGET_PANIC) {
                     (Outcome::StepBudget, None)
                 } else {
-                    (Outcome::Panic { message, location }, None)
+                    (
+                        Outcome::Panic {
+                            message: scrub(message),
+                            location,
+                        },
+                        None,
+                    )
                 }
             }
         };
